@@ -53,6 +53,7 @@ def run(tier):
     _b_identity_keys(chk, sites)
     _c_purity(chk, sites)
     _d_aliasing(chk, sites)
+    _d_callers_mutate(chk, sites)
     _e_invalidation(chk, sites)
     _e_lazy_slots(chk)
     _f_tags(chk, sites)
@@ -414,6 +415,40 @@ def _d_aliasing(chk, sites):
         chk.check(not shared, "C20.d", f"{s.name}[aliasing]" if not shared else f"{s.name}[returns mutated self.{shared[0]}]",
                   f"the factory mutates self.{shared[0] if shared else ''} and returns that same shared object: every key of this cache aliases one object, a later computation "
                   f"overwrites what earlier callers hold", sample=f"{s.method.name}: returned value is not a shared attribute mutated by the factory", nontrivial=False)
+
+
+def _d_callers_mutate(chk, sites, rule="C20.d", members=None):
+    """Values handed out by memoised accessors are shared with every later reader: code that takes such a value through an
+    attribute (`p = point.position`) and then writes into it (`p[...] = ...`, `p[...] += ...`) changes what the cache serves."""
+    M = {s.method.name for s in sites}
+    if members is not None:
+        M &= set(members)
+    n = 0
+    for m in ri.all_modules():
+        if "_tests" in m.name or ".tests" in m.name:
+            continue
+        for q, fn in ri.functions_in(m):
+            al = {}
+            for st in ast.walk(fn):
+                if isinstance(st, ast.Assign) and len(st.targets) == 1 and isinstance(st.targets[0], ast.Name) and isinstance(st.value, ast.Attribute) and st.value.attr in M:
+                    al[st.targets[0].id] = ast.unparse(st.value)
+            if not al:
+                continue
+            n += 1
+            bad = []
+            for st in ast.walk(fn):
+                tg = st.target if isinstance(st, ast.AugAssign) else (st.targets[0] if isinstance(st, ast.Assign) and isinstance(st.targets[0], ast.Subscript) else None)
+                if not isinstance(tg, ast.Subscript):
+                    continue
+                base = tg
+                while isinstance(base, ast.Subscript):
+                    base = base.value
+                if isinstance(base, ast.Name) and base.id in al:
+                    bad.append(f"{ri.norm_stmt(st)[:60]} (alias of {al[base.id]})")
+            chk.check(not bad, rule, f"{m.name}::{q}[writes into a cached value]",
+                      f"{q} writes into an object it obtained from a memoised accessor: {bad[:2]}; every later reader of that accessor sees the modified value",
+                      sample=f"{q}: reads {sorted(set(al.values()))[:3]} without writing into them", nontrivial=False)
+    return n
 
 
 # ------------------------------------------------------------------------------------------------ e
